@@ -82,6 +82,25 @@ def s_find(s, sub, start=0):
     return -1
 
 
+def s_rfind(s, sub, start=0):
+    """str.rfind: the LAST occurrence at or after start, -1 if none (forks on the symbolic characters)"""
+    sub = to_sstr(sub)
+    n, m = len(s), len(sub)
+    if isinstance(start, SymInt):
+        raise EngineError("symbolic start in rfind")
+    for i in range(n - m, start - 1, -1):
+        if branch(SStr(s.chars[i:i + m]).eq(sub)):
+            return i
+    return -1
+
+
+def s_index(s, sub, start=0, interp=None):
+    r = s_find(s, sub, start)
+    if r == -1:
+        raise ValueError("substring not found")
+    return r
+
+
 def s_split(s, sep=None, maxsplit=-1):
     if sep is None:
         raise EngineError("split() without separator on symbolic string")
@@ -164,6 +183,8 @@ def call_str_method(interp, recv, name, args, kwargs):
         return s_endswith(s, *args)
     if name == "find":
         return s_find(s, *args)
+    if name == "rfind":
+        return s_rfind(s, *args)
     if name == "split":
         return s_split(s, *args)
     if name == "replace":
